@@ -123,6 +123,18 @@ int main(int argc, char** argv) {
         if (!stepped && s1 != s2) violation("split-contact", "after %s: penetrating contact %d joins sleeping tree %d and awake tree %d", what, c, s1 ? t1 : t2, s1 ? t2 : t1);
         if (stepped && s1 != s2 && aprev[s1 ? t1 : t2] >= 0) violation("split-contact", "after %s: tree %d slept through a penetrating contact (%d) with awake tree %d", what, s1 ? t1 : t2, c, s1 ? t2 : t1);
       }
+      // I4b the same for active equality and tendon-limit rows: the documented wake rule for them is exactly "the row is active", so a
+      // row whose Jacobian touches both an asleep and an awake tree means an island was not woken as a whole
+      for (int i = 0; i < A->nefc; i++) {
+        int ty = A->efc_type[i];
+        if (ty != mjCNSTR_EQUALITY && ty != mjCNSTR_LIMIT_TENDON) continue;
+        int ta = -1, ts = -1;      // an awake and an asleep tree met in this row
+        auto see = [&](int dof, mjtNum v) { if (v == 0) return; int t = m->dof_treeid[dof]; if (t < 0) return; if (A->tree_asleep[t] >= 0) ts = t; else ta = t; };
+        if (mj_isSparse(m)) { int adr = A->efc_J_rowadr[i]; for (int k = 0; k < A->efc_J_rownnz[i]; k++) see(A->efc_J_colind[adr + k], A->efc_J[adr + k]); }
+        else for (int j = 0; j < m->nv; j++) see(j, A->efc_J[(size_t)i * m->nv + j]);
+        if (ta >= 0 && ts >= 0 && (!stepped || aprev[ts] >= 0))
+          violation("split-constraint", "after %s: active %s row %d (object %d) couples sleeping tree %d and awake tree %d", what, ty == mjCNSTR_EQUALITY ? "equality" : "tendon-limit", i, A->efc_id[i], ts, ta);
+      }
       // derived counters agree with the per-tree array
       int na = 0, nva = 0;
       for (int i = 0; i < m->ntree; i++) if (A->tree_asleep[i] < 0) { na++; nva += ti[i].dofnum; }
@@ -153,6 +165,19 @@ int main(int argc, char** argv) {
             bool any_asleep = false;
             for (int i = 0; i < m->ntree; i++) any_asleep |= aprev[i] >= 0;
             dead = ND_GUARD({ mj_step(m, A); });
+            // the engine's own consistency check: a sleeping tree inside a constraint island means the island was not woken as a whole
+            if (dead && strstr(g_lasterr, "found sleeping tree")) {
+              // name the constraint rows that involve an asleep tree (the arrays of the failed step are still there)
+              std::string rows;
+              for (int i = 0; i < A->nefc && rows.size() < 300; i++) {
+                int ta = -1, ts = -1;
+                auto see = [&](int dof, mjtNum v) { if (v == 0) return; int t = m->dof_treeid[dof]; if (t < 0) return; if (A->tree_asleep[t] >= 0) ts = t; else ta = t; };
+                if (mj_isSparse(m)) { int adr = A->efc_J_rowadr[i]; for (int k = 0; k < A->efc_J_rownnz[i]; k++) see(A->efc_J_colind[adr + k], A->efc_J[adr + k]); }
+                else for (int j = 0; j < m->nv; j++) see(j, A->efc_J[(size_t)i * m->nv + j]);
+                if (ts >= 0) { char b[112]; snprintf(b, sizeof b, " row %d type %d id %d (asleep tree %d, awake tree %d, pos %.4g margin %.4g)", i, A->efc_type[i], A->efc_id[i], ts, ta, A->efc_pos[i], A->efc_margin[i]); rows += b; }
+              }
+              violation("sleeping-tree-in-island", "mj_step raised: %s; coupling rows:%s", g_lasterr, rows.c_str());
+            }
             if (dead) break;
             check_after("mj_step", true);
             count("steps");
